@@ -130,6 +130,8 @@ def pos_of(case, idx, val):
     """position of a delivery: its reported index, else looked up by (distinct) payload"""
     if idx is not None:
         return idx
+    if case.zst:
+        return None          # zero-sized elements carry no identity
     if case.kind == "range":
         return val - case.start
     vals = case.src_values()
@@ -604,6 +606,12 @@ def check_C08(tr):
         return []        # aborted threads unwind silently; their elements are not accounted
     bad = []
     moved, dropped, produced = ledger(tr)
+    if c.zst:
+        # zero-sized elements have no identity: the ledger is a count
+        m, d = sum(moved.values()), sum(dropped.values())
+        if m + d != c.src_len():
+            bad.append("%d zero-sized elements: %d moved out, %d dropped by the iterator" % (c.src_len(), m, d))
+        return bad
     universe = produced if produced is not None else c.src_values()
     for v in universe:
         m, d = moved.get(v, 0), dropped.get(v, 0)
